@@ -93,6 +93,36 @@ def validate_sweep(progs, clean, per, verd, stats, tag, max_steps=6000):
     return explained, unexplained, inconclusive, direct
 
 
+def validate_snapshots(progs, clean, per, verd, stats):
+    """FramesTrace (TLC): invariants of every accessor snapshot, restoration around the
+    Go-side protected call, equality of the snapshots taken before/after the Lua-level
+    protected call - for the fault-free run and EVERY faulted run"""
+    recs, where = [], {}
+    for p in progs:
+        runs = [(0, clean[p["id"]])] + list(enumerate(per[p["id"]], 1))
+        for k, o in runs:
+            if not o.get("snaps"):
+                continue
+            rid = len(recs) + 1
+            where[rid] = (p, k)
+            nres = len(o["outcome"][1]) if o["outcome"][0] == "ok" else 0
+            recs.append({"id": rid, "snaps": o["snaps"], "nres": nres})
+    bad = 0
+    for r in vlib.validate_batches("FramesTrace", "FramesTrace", recs, "c05fr", batch=3000, parallel=4, timeout=1200, heap="3g"):
+        stats["states"] += r.distinct
+        stats["transitions"] += r.generated
+        vs = r.tag("VERDICT")
+        if len(vs) != r.nrecords:
+            raise vlib.Infra("FramesTrace: %d verdicts for %d runs" % (len(vs), r.nrecords))
+        for v in vs:
+            if not v["ok"]:
+                bad += 1
+                p, k = where[v["id"]]
+                verd.candidate("C05:frames:%s" % v["rule"], "program %d (%s), fault at poll %d: control skeleton violates '%s' at snapshot %d" % (p["id"], p["fam"], k, v["rule"], v["at"]),
+                               {"program": p, "k": k, "verdict": v})
+    return len(recs), bad
+
+
 def run(tier):
     t0 = time.time()
     thorough = tier == "thorough"
@@ -124,6 +154,8 @@ def run(tier):
     t2 = time.time()
     explained, unexplained, inconclusive, direct = validate_sweep(progsB, clean, per, verd, stats, "s")
     vlib.log("[C05] sweep timing: real runs %.1fs, TLC %.1fs" % (t2 - t1, time.time() - t2))
+    nsnap, badsnap = validate_snapshots(progsB, clean, per, verd, stats)
+    vlib.log("[C05] FramesTrace: control-skeleton snapshots of %d runs validated (restoration of call depth, stack height, panic mode, open upvalues): %d rejected" % (nsnap, badsnap))
     # reproduce each unexplained fault point on a fresh interpreter
     if unexplained:
         again = {}
@@ -149,6 +181,7 @@ def run(tier):
     cov["traces_validated_against_impl"] += explained
     cov["evaluations"] += total_k
     cov["distinct_nontrivial"] += len({(p["id"], tuple(map(json.dumps, o["emits"])), json.dumps(o["outcome"][:2])) for p in progsB for o in per[p["id"]]})
+    cov["frames_snapshots_validated"] = nsnap
     cov["fault_sweep"] = {"programs": len(progsB), "faulted_runs": total_k, "explained_monotone": explained,
                           "unexplained": len(unexplained), "inconclusive": inconclusive, "crash_or_hang": direct,
                           "exhaustive_over_dispatch_polls": True}
